@@ -169,8 +169,10 @@ def r11_3(repo: Repo) -> RuleResult:
         # the row id is the first element of the tuple handed to coo_append
         row_b = None
         for c in repo.calls_in(b):
-            if app in repo.resolve_call(b, c) and len(c.args) >= 2 and isinstance(c.args[1], ast.Tuple):
-                row_b = norm(expand_locals(c.args[1].elts[0], b, 3))
+            if app in repo.resolve_call(b, c):
+                tup = repo.bind_args(app, c).get(app.params[1])
+                if isinstance(tup, ast.Tuple) and tup.elts:
+                    row_b = norm(expand_locals(tup.elts[0], b, 3))
         row_e = norm(expand_locals(bound["target_gram_ind"], e, 3))
         if row_b != row_e:
             problems.append("row id differs: build `%s` vs EM `%s`" % (row_b, row_e))
